@@ -14,7 +14,7 @@ RULE = ('a universe of ~110 hand-enumerated values (None, bools, ints, floats, n
         'evaluating eq(x,y) and eq(y,x) (the diagonal twice: same object, and an independently built copy holding fresh NaN objects); '
         'random nestings to depth 3 plus representation-changing variants (1 / 1.0 / np.int64(1), dict insertion order, dtype, NaN object) '
         'and single-point mutants (one cell, container kind at depth, shape, index label, dict class), plus same-size dicts with different key sets whose non-shared keys map to None (also nested / subclassed / with shared keys), give further pairs, triples '
-        '(x,y,z: eq(x,y), eq(y,z), eq(x,z)), in_(x, seq) cases (seq a list / tuple / object array) and veq(x, y) on same-shape arrays; 7 values of size 120..300; np.int32 / np.float32 scalars, sub-second, pre-1970 and year-2200 timestamps; positional and keyword spelling. Compared inside Coq with M_eq.eq_model / in_model (outcome Raised is a value). '
+        '(x,y,z: eq(x,y), eq(y,z), eq(x,z)), in_(x, seq) cases (seq a list / tuple / object array) and veq(x, y) on same-shape arrays; 7 values of size 120..300; np.int32 / np.float32 scalars, sub-second, pre-1970 and year-2200 timestamps; positional and keyword spelling. edit cases: eq on two live objects (Series / DataFrame / ndarray, top level or inside list / tuple / dict), an in-place edit of one (cell, index label, column label), eq again, an edit of the other, eq again - every verdict compared on the current values, both argument orders; datetime64[ns] / timedelta64[ns] Series and frames (with NaT) against int / object / float columns. Compared inside Coq with M_eq.eq_model / in_model (outcome Raised is a value). '
         'Oracle on the real outputs: never raises, returns bool, symmetric, transitive on the triple, in_ = any(eq), and equal to the '
         'structural rule read off the property text wherever that rule is determined (undetermined only for dtype-only differences). '
         'non-trivial = at least one operand is a container, or a triple / in_ case; distinct by the JSON of the operands')
@@ -28,7 +28,7 @@ ASSUMPTIONS = ['dict keys are ASCII strings (values may be any str)', 'pandas in
                'pandas extension arrays, datetime64 arrays, sets and functools.partial are outside the universe']
 EXHAUSTIVE = {'quick': False, 'thorough': False}
 
-SCALARS = ('none', 'bool', 'int', 'float', 'npint', 'npint32', 'npfloat', 'npf32', 'npbool', 'nan', 'npnan', 'npf32nan', 'inf', 'flt', 'npflt', 'str', 'npstr', 'dt', 'ts', 'dt64')
+SCALARS = ('none', 'bool', 'int', 'float', 'npint', 'npint32', 'npfloat', 'npf32', 'npbool', 'nan', 'npnan', 'npf32nan', 'inf', 'flt', 'npflt', 'nat', 'td', 'pytd', 'str', 'npstr', 'dt', 'ts', 'dt64')
 NANS = ('nan', 'npnan', 'npf32nan')
 SEQCLS = {'Point': 1, 'P3': 2, 'MyTuple': 3, 'MyList': 4}    # namedtuples (2 / 3 fields), a tuple subclass, a list subclass
 CLS = {'dict': 0, 'Dict': 1, 'FunnyDict': 2, 'OrderedDict': 3}
@@ -90,6 +90,9 @@ def pyrepr(s):
     if t == 'flt': return repr(float.fromhex(s[1]))
     if t == 'npflt': return 'np.float64(%r)' % float.fromhex(s[1])
     if t == 'seq': return '%s(%s)' % (s[1], ', '.join(map(pyrepr, s[2])) if s[1] in ('Point', 'P3') else '[' + ', '.join(map(pyrepr, s[2])) + ']')
+    if t == 'nat': return 'pd.NaT'
+    if t == 'td': return 'pd.Timedelta(microseconds=%d)' % s[1]
+    if t == 'pytd': return 'datetime.timedelta(microseconds=%d)' % s[1]
     if t == 'str': return repr(s[1])
     if t == 'npstr': return 'np.str_(%r)' % s[1]
     if t in ('dt', 'ts', 'dt64'):
@@ -131,6 +134,8 @@ def coq_val(s, ids):
     if t == 'inf': return '(VInf %s)' % ('true' if s[1] else 'false')
     if t in ('str', 'npstr'): return '(VStr %s)' % coq_str(s[1])
     if t in ('dt', 'ts', 'dt64'): return '(VDate (%d))' % s[1]
+    if t == 'nat': return '(VDate (-1))'                      # the NaT singleton: a reserved date, equal only to itself
+    if t in ('td', 'pytd'): return '(VFlt (%d) (1000000))' % s[1]   # a timedelta of n microseconds: a reserved exponent, equal only to the same timedelta
     cl = lambda xs: '[' + '; '.join(coq_val(x, ids) for x in xs) + ']'
     if t == 'list': return '(VList %s)' % cl(s[1])
     if t == 'tuple': return '(VTuple %s)' % cl(s[1])
@@ -143,13 +148,14 @@ def coq_val(s, ids):
     raise ValueError(s)
 
 def coq_runner(case):
-    return {'pair': 'run_eq_pair', 'triple': 'run_eq_triple', 'in': 'run_in', 'veq': 'run_veq'}[case['kind']]
+    return {'pair': 'run_eq_pair', 'triple': 'run_eq_triple', 'in': 'run_in', 'veq': 'run_veq', 'edit': 'run_eq_seq'}[case['kind']]
 
 def coq_case(case):
     ids = Ids(); k = case['kind']
     if k == 'pair': return '(%s, %s)' % (coq_val(case['x'], ids), coq_val(case['y'], ids))
     if k == 'triple': return '(%s, %s, %s)' % (coq_val(case['x'], ids), coq_val(case['y'], ids), coq_val(case['z'], ids))
     if k == 'in': return '(%s, [%s])' % (coq_val(case['x'], ids), '; '.join(coq_val(v, ids) for v in case['seq']))
+    if k == 'edit': return '[' + '; '.join('(%s, %s)' % (coq_val(a, ids), coq_val(b, ids)) for a, b in edit_states(case)) + ']'
     if k == 'veq': return '([%s], [%s])' % ('; '.join(coq_val(v, ids) for v in case['x'][3]), '; '.join(coq_val(v, ids) for v in case['y'][3]))
     raise ValueError(k)
 
@@ -165,6 +171,8 @@ def scalar_key(s):
     if t in ('flt', 'npflt'): return ('flt', s[1])
     if t in ('str', 'npstr'): return ('str', s[1])
     if t in ('dt', 'ts', 'dt64'): return ('date', s[1])
+    if t == 'nat': return ('nat',)
+    if t in ('td', 'pytd'): return ('td', s[1])
     raise ValueError(s)
 
 def all3(rs):
@@ -241,6 +249,9 @@ def build(s):
     if t == 'seq':
         vals = [build(v) for v in s[2]]
         return SEQTYPES[s[1]](*vals) if s[1] in ('Point', 'P3') else SEQTYPES[s[1]](vals)
+    if t == 'nat': return pd.NaT
+    if t == 'td': return pd.Timedelta(microseconds=s[1])
+    if t == 'pytd': return datetime.timedelta(microseconds=s[1])
     if t == 'str': return str(s[1])
     if t == 'npstr': return np.str_(s[1])
     if t == 'dt': return us2dt(s[1])
@@ -263,7 +274,7 @@ def build(s):
             return a.reshape(shape)
         return np.array(cells, dtype={'int': np.int64, 'float': np.float64, 'bool': np.bool_, 'str': str}[dtype]).reshape(shape)
     if t in ('series', 'frame'):
-        dtype = {'int': np.int64, 'float': np.float64, 'object': object}[s[1]]
+        dtype = {'int': np.int64, 'float': np.float64, 'object': object, 'dt64ns': 'datetime64[ns]', 'td64ns': 'timedelta64[ns]'}[s[1]]
         index = [build(c) for c in s[2]]
         idx = None if index == list(range(len(index))) and all(type(i) is int for i in index) and index else pd.Index(index)
         if t == 'series':
@@ -272,7 +283,7 @@ def build(s):
         a = np.empty(len(s[4]), dtype=object)
         for i, c in enumerate(s[4]):
             a[i] = build(c)
-        return pd.DataFrame(a.reshape(len(index), len(cols)), index=pd.Index(index) if idx is None and not index else idx, columns=pd.Index(cols)).astype(dtype)
+        return pd.DataFrame(a.reshape(len(index), len(cols)), index=pd.Index(index) if idx is None and not index else idx, columns=pd.Index(cols), dtype=object).astype(dtype)   # dtype=object first: no inference (None must not become NaT)
     raise ValueError(s)
 
 def observe(f, *a):
@@ -340,6 +351,30 @@ def impl(case):
             if viol is None and None not in exp and o[1] != any(exp):
                 viol = 'in_(%s, [%s]) = %s but membership up to eq is %s' % (pyrepr(case['x']), ', '.join(map(pyrepr, case['seq'])), o[1], any(exp))
         return {'status': 'ok' if o[0] != 'raise' else o[1], 'obs': canon(o), 'viol': viol}
+    if k == 'edit':
+        # eq(x, y) / eq(y, x) on two live objects, an in-place edit of one of them, eq again ... every verdict is about the CURRENT values
+        states = edit_states(case)
+        x, y = build(case['x']), build(case['y'])
+        obs, viol = [], None
+        for n, (sx, sy) in enumerate(states):
+            if n > 0:
+                e = case['edits'][n - 1]
+                edit_object(x if e['on'] == 'x' else y, states[n - 1][0] if e['on'] == 'x' else states[n - 1][1], e)
+                check_edited(x, sx); check_edited(y, sy)
+            o1 = observe(eq, x, y); o2 = observe(eq, y, x)
+            obs.append([canon(o1), canon(o2)])
+            where = ('after %d in-place edit(s) %s, ' % (n, json.dumps(case['edits'][:n]))) if n else ''
+            px, py = pyrepr(sx), pyrepr(sy)
+            v = bad(o1, 'eq(x, y)') or bad(o2, 'eq(y, x)')
+            if v is None and o1[1] != o2[1]:
+                v = 'not symmetric: eq(x, y) = %s but eq(y, x) = %s' % (o1[1], o2[1])
+            if v is None:
+                exp, why = spec3(sx, sy)
+                if exp is not None and exp != o1[1]:
+                    v = 'eq(x, y) = %s but must be %s%s' % (o1[1], exp, (' - ' + why) if why else ' (the current values are structural copies)')
+            if v and viol is None:
+                viol = '%s%s for the current values x = %s, y = %s' % (where, v, px, py)
+        return {'status': 'ok', 'obs': obs, 'viol': viol}
     if k == 'veq':
         x, y = build(case['x']), build(case['y'])
         try:
@@ -357,6 +392,58 @@ def impl(case):
         return {'status': 'ok', 'obs': cells, 'viol': viol}
     raise ValueError(k)
 
+def locate(spec, path):
+    for p in path:
+        if spec[0] in ('list', 'tuple'): spec = spec[1][p]
+        elif spec[0] == 'seq': spec = spec[2][p]
+        elif spec[0] == 'dict': spec = next(v for k, v in spec[2] if k == p)
+        else: raise ValueError(spec[0])
+    return spec
+
+def edit_spec(spec, e):
+    """the description after the in-place edit e = {on, path, op: cell | index | col, i, v}"""
+    s = copy.deepcopy(spec); t = locate(s, e['path'])
+    slot = {'arr': {'cell': 3}, 'series': {'cell': 3, 'index': 2}, 'frame': {'cell': 4, 'index': 2, 'col': 3}}[t[0]][e['op']]
+    t[slot][e['i']] = e['v']
+    return s
+
+def edit_states(case):
+    states = [(case['x'], case['y'])]
+    for e in case['edits']:
+        x, y = states[-1]
+        states.append((edit_spec(x, e), y) if e['on'] == 'x' else (x, edit_spec(y, e)))
+    return states
+
+def edit_object(obj, spec, e):
+    for p in e['path']:
+        obj = obj[p]
+    t = locate(spec, e['path']); v = build(e['v']); i = e['i']
+    if e['op'] == 'cell':
+        if t[0] == 'arr':
+            if obj.ndim == 0: obj[()] = v
+            else: obj.flat[i] = v
+        elif t[0] == 'series': obj.iloc[i] = v
+        else: obj.iloc[i // len(t[3]), i % len(t[3])] = v
+    elif e['op'] == 'index':
+        labels = list(obj.index); labels[i] = v; obj.index = labels
+    else:
+        labels = list(obj.columns); labels[i] = v; obj.columns = labels
+
+def check_edited(obj, spec):
+    """harness self-check: the edited live object is what the description says (raises -> harness error, never silent)"""
+    fresh = build(spec)
+    def same(a, b):
+        if isinstance(a, (pd.Series, pd.DataFrame)):
+            ok = type(a) == type(b) and list(a.index) == list(b.index) and a.shape == b.shape and a.astype(object).equals(b.astype(object))
+            return ok and (not isinstance(a, pd.DataFrame) or list(a.columns) == list(b.columns))
+        if isinstance(a, np.ndarray):
+            return a.shape == b.shape and (a.dtype == object or np.array_equal(a, b, equal_nan=a.dtype.kind == 'f'))
+        if isinstance(a, (list, tuple)): return len(a) == len(b) and all(same(i, j) for i, j in zip(a, b))
+        if isinstance(a, dict): return list(a) == list(b) and all(same(a[k], b[k]) for k in a)
+        return True
+    if not same(obj, fresh):
+        raise RuntimeError('edited object differs from its description %s' % pyrepr(spec))
+
 def nontrivial(case, result):
     if case['kind'] != 'pair':
         return True
@@ -366,6 +453,8 @@ def shape(case):
     if case['kind'] == 'pair':
         a, b = sorted([kind(case['x']).split(':')[0], kind(case['y']).split(':')[0]])
         return 'pair:%s/%s' % (a, b)
+    if case['kind'] == 'edit':
+        return 'edit:' + '+'.join(e['op'] for e in case['edits'])
     return case['kind']
 
 def shrink(case):
@@ -421,6 +510,17 @@ def universe():
           A('float', [2], [F(2 * 10 ** 10), NAN]), A('float', [2], [F(2 * 10 ** 10 + 2), NAN]), A('object', [2], [X(f3), F(3)]), A('float', [2, 1], [X(f3), F(3)]),
           SR('float', [I(0), I(1)], [X(f3), F(3)]), SR('float', [I(0), I(1)], [X(g3), F(3)]), SR('float', [I(0), I(1)], [X(f3), NAN]), SR('float', [I(0), I(1)], [X(g3), NAN]),
           FR('float', [I(0)], [S('a'), S('b')], [X(f3), F(3)]), FR('float', [I(0)], [S('a'), S('b')], [X(g3), F(3)]), FR('float', [I(0)], [S('a'), S('b')], [X(h3), NAN])]
+    ns = lambda us: (us - 719163 * 86400000000) * 1000          # epoch nanoseconds of a model timestamp
+    ix = [I(0), I(1)]
+    U += [['nat'], ['td', 1000000], ['pytd', 1000000], ['td', 2000000], L(['nat']), L(['td', 1000000]),
+          SR('dt64ns', ix, [['ts', D1], ['ts', D2]]), SR('dt64ns', ix, [['ts', D1], ['nat']]), SR('dt64ns', ix, [['ts', D1], ['ts', D3]]), SR('int', ix, [I(ns(D1)), I(ns(D2))]),
+          SR('object', ix, [['ts', D1], ['ts', D2]]), SR('object', ix, [['ts', D1], ['none']]), SR('object', ix, [['ts', D1], NAN]), SR('object', ix, [['ts', D1], ['nat']]),
+          SR('object', ix, [I(ns(D1)), I(ns(D2))]), SR('float', ix, [F(2 * ns(D1)), NAN]), SR('dt64ns', [I(0)], [['nat']]), SR('object', [I(0)], [['none']]), SR('td64ns', [I(0)], [['nat']]),
+          SR('td64ns', ix, [['td', 1000000], ['td', 2000000]]), SR('td64ns', ix, [['td', 1000000], ['nat']]), SR('int', ix, [I(10 ** 9), I(2 * 10 ** 9)]),
+          SR('object', ix, [['td', 1000000], ['td', 2000000]]), SR('object', ix, [['td', 1000000], ['none']]), SR('object', ix, [['pytd', 1000000], ['pytd', 2000000]]),
+          FR('dt64ns', ix, [S('a')], [['ts', D1], ['nat']]), FR('object', ix, [S('a')], [['ts', D1], ['none']]), FR('object', ix, [S('a')], [['ts', D1], ['nat']]), FR('int', ix, [S('a')], [I(ns(D1)), I(0)]),
+          FR('dt64ns', ix, [S('a'), S('b')], [['ts', D1], ['ts', D2], ['ts', D3], ['nat']]), FR('int', ix, [S('a'), S('b')], [I(ns(D1)), I(ns(D2)), I(ns(D3)), I(0)]),
+          FR('td64ns', ix, [S('a')], [['td', 1000000], ['nat']]), FR('int', ix, [S('a')], [I(10 ** 9), I(0)])]
     U += [A('int', [2, 1, 2], [I(1), I(2), I(3), I(4)]), A('int', [1, 2, 2], [I(1), I(2), I(3), I(4)]), A('float', [2, 2, 1], [F(2), F(4), F(6), NAN]),
           L(['npf32nan']), D([('a', ['npf32nan'])]), A('object', [1], [['npf32nan']])]
     U += [A('int', [1], [I(1)]), A('int', [1, 1], [I(1)]), A('int', [], [I(1)]), A('int', [2], [I(1), I(2)]), A('int', [1, 2], [I(1), I(2)]),
@@ -454,6 +554,8 @@ def rand_cells(rng, dtype, n):
     if dtype == 'float': return [rng.choice([F(2), F(3), F(4), F(0), NAN, NAN, ['inf', False], X(0.3), X(0.1 + 0.2), X(1e-9), F(2 * 10 ** 10)]) for _ in range(n)]
     if dtype == 'bool': return [['bool', rng.random() < 0.5] for _ in range(n)]
     if dtype == 'str': return [S(rng.choice(['a', 'b', 'ab'])) for _ in range(n)]
+    if dtype == 'dt64ns': return [rng.choice([['ts', D1], ['ts', D2], ['ts', D3], ['nat']]) for _ in range(n)]
+    if dtype == 'td64ns': return [rng.choice([['td', 1000000], ['td', 2000000], ['td', 1], ['nat']]) for _ in range(n)]
     return [rand_scalar(rng) for _ in range(n)]
 
 def rand_index(rng, n):
@@ -484,10 +586,10 @@ def rand_val(rng, depth):
             return A(dtype, shape, [rand_val(rng, depth - 1) for _ in range(size)])
         return A(dtype, shape, rand_cells(rng, dtype, size))
     if r < 0.95:
-        dtype = rng.choice(['int', 'float', 'float', 'object'])
+        dtype = rng.choice(['int', 'float', 'float', 'object', 'dt64ns', 'td64ns'])
         return SR(dtype, rand_index(rng, n), rand_cells(rng, dtype, n))
     m = rng.choice([1, 2])
-    dtype = rng.choice(['int', 'float', 'float', 'object'])
+    dtype = rng.choice(['int', 'float', 'float', 'object', 'dt64ns'])
     return FR(dtype, rand_index(rng, n), [S(KEYS[j]) for j in range(m)] if rng.random() < 0.8 else [I(j) for j in range(m)], rand_cells(rng, dtype, n * m))
 
 def conv_cell(c, dtype):
@@ -509,6 +611,7 @@ def variant(rng, s):
     if t in ('dt', 'ts', 'dt64'): return [rng.choice(['dt', 'ts', 'dt64']), s[1]]
     if t in ('flt', 'npflt'): return [rng.choice(['flt', 'npflt']), s[1]]
     if t == 'seq': return ['seq', s[1], [variant(rng, v) for v in s[2]]]
+    if t in ('td', 'pytd'): return [rng.choice(['td', 'pytd']), s[1]]
     if t in ('list', 'tuple'): return [t, [variant(rng, v) for v in s[1]]]
     if t == 'dict':
         items = [[k, variant(rng, v)] for k, v in s[2]]
@@ -519,10 +622,10 @@ def variant(rng, s):
         nd = rng.choice({'int': ['int', 'float', 'object'], 'float': ['float', 'object'], 'bool': ['bool', 'object'], 'str': ['str', 'object']}[s[1]])
         return A(nd, s[2], [conv_cell(c, nd) for c in s[3]])
     if t == 'series':
-        nd = rng.choice({'int': ['int', 'float', 'object'], 'float': ['float', 'object'], 'object': ['object']}[s[1]])
+        nd = rng.choice({'int': ['int', 'float', 'object'], 'float': ['float', 'object'], 'object': ['object'], 'dt64ns': ['dt64ns', 'object'], 'td64ns': ['td64ns', 'object']}[s[1]])
         return SR(nd, s[2], [conv_cell(c, nd) for c in s[3]])
     if t == 'frame':
-        nd = rng.choice({'int': ['int', 'float', 'object'], 'float': ['float', 'object'], 'object': ['object']}[s[1]])
+        nd = rng.choice({'int': ['int', 'float', 'object'], 'float': ['float', 'object'], 'object': ['object'], 'dt64ns': ['dt64ns', 'object'], 'td64ns': ['td64ns', 'object']}[s[1]])
         return FR(nd, s[2], s[3], [conv_cell(c, nd) for c in s[4]])
     return copy.deepcopy(s)
 
@@ -547,6 +650,8 @@ def mutate_scalar(rng, s):
     if t in ('str', 'npstr'): return [t, s[1] + 'x']
     if t in ('dt', 'ts', 'dt64'): return [t, s[1] + 1000000]
     if t == 'none': return rng.choice([I(0), NAN, S('None')])
+    if t == 'nat': return ['ts', D1]
+    if t in ('td', 'pytd'): return [t, s[1] + 1000000]
     if t in ('bool', 'npbool'): return [t, not s[1]]
     if t == 'inf': return ['inf', not s[1]]
     return s
@@ -563,6 +668,8 @@ def mutant(rng, s):
         if s[0] in ('arr', 'series', 'frame') and s[1] != 'object':
             new = mutate_scalar(rng, kids[i])
             if s[1] == 'float' and new[0] not in ('float', 'flt', 'nan', 'inf'): new = F(7)
+            if s[1] == 'dt64ns' and new[0] not in ('ts', 'nat'): new = ['ts', D2 + 7000000]
+            if s[1] == 'td64ns' and new[0] not in ('td', 'nat'): new = ['td', 7000000]
         else:
             new = mutant(rng, kids[i])
         if t == 'dict': s[2][i][1] = new
@@ -595,7 +702,7 @@ def mutant(rng, s):
         if s[2] and rng.random() < 0.7:
             ix = copy.deepcopy(s[2]); ix[-1] = mutate_scalar(rng, ix[-1])
             return SR(s[1], ix, s[3])
-        return A(s[1] if s[1] != 'object' else 'object', [len(s[3])], s[3])
+        return A(s[1] if s[1] in ('int', 'float') else 'object', [len(s[3])], s[3])
     if t == 'frame':
         if s[3] and rng.random() < 0.5:
             col = copy.deepcopy(s[3]); col[-1] = mutate_scalar(rng, col[-1])
@@ -702,7 +809,50 @@ def gen_cases(rng, tier):
             if x[1] == 'float': cells = [c if c[0] in ('float', 'flt', 'nan', 'inf') else F(7) for c in cells]
             y = A(x[1], x[2], cells)
         cases.append({'kind': 'veq', 'x': x, 'y': y})
+    cases += edit_cases(rng, n // 2)
     return [keep32_apart(c) for c in cases]
+
+EDITABLE = [SR('float', [I(0), I(1), I(2)], [F(2), F(4), NAN]), SR('int', [S('a'), S('b')], [I(1), I(2)]), SR('object', [I(5), I(6)], [S('a'), I(1)]),
+            SR('dt64ns', [I(0), I(1)], [['ts', D1], ['nat']]), SR('float', [['ts', D1], ['ts', D2]], [F(2), F(3)]),
+            FR('float', [I(0), I(1)], [S('a'), S('b')], [F(2), F(4), F(6), NAN]), FR('int', [I(0)], [S('a'), S('b')], [I(1), I(2)]), FR('object', [I(0), I(1)], [S('a')], [S('x'), I(1)]),
+            A('float', [3], [F(2), NAN, F(6)]), A('int', [2, 2], [I(1), I(2), I(3), I(4)]), A('object', [2], [I(1), S('a')]), A('float', [], [F(2)])]
+
+def edit_value(rng, t, op, i):
+    if op == 'col': return S(rng.choice(['zz', 'a', 'b', 'c']))
+    if op == 'index':
+        old = t[2][i]
+        return ['ts', old[1] + 3600000000] if old[0] == 'ts' else S(old[1] + 'x') if old[0] == 'str' else I(old[1] + rng.choice([10, 20]))
+    d = t[1]
+    if d == 'int': return I(rng.choice([7, 8, 9]))
+    if d == 'float': return rng.choice([F(14), F(15), NAN, X(0.3)])
+    if d == 'dt64ns': return rng.choice([['ts', D2], ['ts', D3], ['nat']])
+    return rng.choice([I(7), S('q'), F(5)])
+
+def edit_cases(rng, n):
+    """two live objects compared, one edited in place (a cell, an index label, a column label), compared again, the other edited, compared again:
+    equal -> unequal -> equal (mode A) and unequal -> equal -> unequal (mode B); top level and nested in list / tuple / dict"""
+    out = []
+    for _ in range(n):
+        b = copy.deepcopy(rng.choice(EDITABLE))
+        wrap, path = rng.choice([(lambda v: v, []), (lambda v: L(v), [0]), (lambda v: T(I(1), v), [1]), (lambda v: D([('a', v), ('b', I(1))]), ['a']),
+                                 (lambda v: L(D([('k', v)])), [0, 'k']), (lambda v: D([('p', L(I(0), v))], 'Dict'), ['p', 1])])
+        ops = {'arr': ['cell'], 'series': ['cell', 'cell', 'index'], 'frame': ['cell', 'cell', 'index', 'col']}[b[0]]
+        def an_edit(on, t):
+            op = rng.choice(ops)
+            size = len(t[{'arr': 3, 'series': 3, 'frame': 4}[t[0]]]) if op == 'cell' else len(t[2]) if op == 'index' else len(t[3])
+            i = rng.randrange(size)
+            return {'on': on, 'path': path, 'op': op, 'i': i, 'v': edit_value(rng, t, op, i)}
+        if rng.random() < 0.5:      # A: equal, edit x, the same edit on y
+            e = an_edit('x', b)
+            out.append({'kind': 'edit', 'x': wrap(b), 'y': wrap(copy.deepcopy(b)), 'edits': [e, dict(e, on='y')]})
+        else:                       # B: y is x with one edit already applied; apply it to x in place, then edit y again
+            e = an_edit('x', b)
+            y_b = locate(edit_spec(wrap(b), e), path)
+            if json.dumps(y_b) == json.dumps(b):
+                continue
+            e3 = an_edit('y', y_b)
+            out.append({'kind': 'edit', 'x': wrap(b), 'y': wrap(y_b), 'edits': [e, e3]})
+    return out
 
 def keep32_apart(case):
     """numpy compares np.float32(v) == <python float> after rounding the double to float32 (weak-scalar promotion), so a float32
